@@ -114,6 +114,7 @@ type HarnessRun struct {
 	stubFns   map[string]*ssa.Function
 	snapTried bool
 	havocN    int
+	memoObj   map[string][]*Term
 	tainted   bool
 	startWit  map[string]*big.Int
 	lastFull  bool
@@ -986,6 +987,7 @@ func (r *HarnessRun) runAll(workers int) {
 func (r *HarnessRun) runPath(prefix []int) {
 	r.prefix = prefix
 	r.havocN = 0
+	r.memoObj = nil
 	r.tainted = false
 	r.pos = 0
 	r.decisions = nil
